@@ -28,6 +28,7 @@ type Input struct {
 	NoIdent bool         `json:"no_ident,omitempty"` // tcp: bytes written straight to the listening router
 	Payload *PayloadSpec `json:"payload,omitempty"`  // decode
 	Senders [][]ValSpec  `json:"senders,omitempty"`  // conc: one list of values per sending goroutine
+	FailAt  *int         `json:"fail_at,omitempty"`  // stream (conn, router): the sender's Write crossing this wire offset fails part-way
 }
 
 // ItemSpec is one thing put on the wire.
@@ -149,8 +150,9 @@ func guarded(f func()) (returned bool) {
 
 // ---- sending side on a capturing connection (levels conn and router) ---------
 
-func sendCaptured(items []sentItem) (wire []byte, sends []bool, crash string, hung string) {
+func sendCaptured(items []sentItem, failAt int) (wire []byte, sends []bool, crash string, hung string) {
 	cap := newScriptConn(nil, true)
+	cap.failAt = failAt
 	sc := network.VerifNewTCPConn(cap, ed25519)
 	var mu sync.Mutex
 	returned := guarded(func() {
@@ -650,7 +652,29 @@ func runStream(in *Input) lib.Case {
 	lv := "LConn"
 	switch in.Level {
 	case "conn", "router":
-		wire, sends, crash, sendHung := sendCaptured(items)
+		failAt := -1
+		if in.FailAt != nil {
+			failAt = *in.FailAt
+		}
+		wire, sends, crash, sendHung := sendCaptured(items, failAt)
+		if failAt >= 0 {
+			// the class says what the history really was
+			firstFail := -1
+			for i, ok := range sends {
+				if !ok {
+					firstFail = i
+					break
+				}
+			}
+			switch {
+			case firstFail < 0:
+				tag = "write-failure-not-reached"
+			case firstFail == len(sends)-1:
+				tag = "write-fails-last"
+			default:
+				tag = "write-fails-then-send"
+			}
+		}
 		var segs [][]byte
 		if crash == "" && sendHung == "" {
 			segs = cutSegments(wire, in.Cuts, in.Every)
@@ -741,8 +765,12 @@ func runStream(in *Input) lib.Case {
 	if identIdx >= 0 {
 		ident = fmt.Sprintf("(Some %d)", identIdx)
 	}
-	coq := fmt.Sprintf("CStream %s %d%%N %s\n    %s\n    [%s]\n    (%s) %s %s\n    [%s] %s %s %s %s %s %s",
-		lv, in.Limit, ident, poolCoq, strings.Join(coqItems, "; "), cuts, chw.encode(o.wire), boolList(o.sends),
+	failCoq := "None"
+	if in.FailAt != nil && in.Level != "tcp" {
+		failCoq = fmt.Sprintf("(Some %d%%N)", *in.FailAt)
+	}
+	coq := fmt.Sprintf("CStream %s %d%%N %s\n    %s\n    [%s]\n    %s (%s) %s %s\n    [%s] %s %s %s %s %s %s",
+		lv, in.Limit, ident, poolCoq, strings.Join(coqItems, "; "), failCoq, cuts, chw.encode(o.wire), boolList(o.sends),
 		strings.Join(o.evs, "; "), natList(dIdx), coqBool(o.closed), coqBool(valeq), coqBool(tyeq),
 		coqBool(o.crash != ""), coqBool(o.hung != ""))
 	obs := map[string]interface{}{
